@@ -47,6 +47,16 @@ BEHAVIOURS = ["PERMIT", "EXECUTE", "BLOCK", "DEFER", "UNKNOWN", "FAILURE", "rais
 WEIGHTS = [0, 0.5, 1, 3]
 CONFS = [None, 0, 0.2, 0.3, 1]
 FRACTIONS = [0.3, 0.5, 0.666, 1.0]
+OFFGRID = [2 / 3, 5 / 9, 7 / 9, 1 / 7, 3 / 7, 0.66668, 0.55556]
+# (threshold, permit weights, block weights): exact share == the intended rational (or just below an off-grid decimal);
+# all weights dyadic so that every float product and sum is exact
+BOUNDARY_W = [(2 / 3, [1, 1], [1]), (2 / 3, [0.5, 0.5], [0.5]), (2 / 3, [3, 1], [1, 1]), (5 / 9, [3, 1, 1], [3, 1]),
+              (7 / 9, [3, 3, 1], [1, 1]), (1 / 7, [1], [3, 3]), (1 / 7, [0.5], [3]), (3 / 7, [3], [3, 1]),
+              (0.66668, [1, 1], [1]), (0.55556, [3, 1, 1], [3, 1]), (0.5, [1, 0.5], [1, 0.5]), (0.3, [3], [3, 3, 1]),
+              (0.75, [3], [1]), (0.6, [3], [1, 1])]
+# (threshold, permits, blocks) for the head-count strategies
+BOUNDARY_C = [(2 / 3, 2, 1), (2 / 3, 4, 2), (1 / 7, 1, 6), (3 / 7, 3, 4), (0.66668, 2, 1), (0.6, 3, 2), (0.75, 3, 1),
+              (0.5, 2, 2), (0.666, 2, 1), (0.4, 2, 3)]
 RATIO = ("majority", "supermajority", "weighted", "confidence")
 COST = 10
 
@@ -59,10 +69,10 @@ def configs(n):
                 out.append({"strategy": s, "threshold": t, "min_voters": mv, "emergency": False})
     for mv in range(0, n + 1):
         out.append({"strategy": "unanimous", "threshold": None, "min_voters": mv, "emergency": False})
-    for t in [None, 0.3] + list(range(1, n + 1)):
+    for t in [None, 0, 0.3] + list(range(1, n + 1)):
         for mv in range(0, n + 1):
             out.append({"strategy": "threshold", "threshold": t, "min_voters": mv, "emergency": False})
-    for t in (0.3, 0.5, 2):
+    for t in (0, 0.3, 0.5, 2):
         out.append({"strategy": "threshold", "threshold": t, "min_voters": 1, "emergency": True})
     return out
 
@@ -73,7 +83,7 @@ TABLE = {"quick": sum(_BLOCK[n] for n in (1, 2, 3)), "thorough": sum(_BLOCK[n] f
 RUNS = {"quick": TABLE["quick"] + 45_000, "thorough": TABLE["thorough"] + 1_500_000}
 EXHAUSTIVE = {"quick": False, "thorough": False}
 RULE = ("run i < table size is the i-th row of the complete table {8 voter behaviours}^n x {7 strategies x default/custom "
-        "thresholds (fractions 0.3, 0.5, 0.666, 1.0; counts 1..n) x min_voters 0..n, EmergencyQuorum at 0.3/0.5/2} for "
+        "thresholds (fractions 0.3, 0.5, 0.666, 1.0; counts 0..n) x min_voters 0..n, EmergencyQuorum at 0/0.3/0.5/2} for "
         f"n = 1..3 (quick, {TABLE['quick']} rows) / n = 1..4 (thorough, {TABLE['thorough']} rows), voter weights from "
         "{0,0.5,1,3} and payload confidences from {absent,0,0.2,0.3,1} drawn per row; runs beyond the table are seeded "
         "samples: n = 5..7 electorates, multi-round histories with update_all_reliability between rounds, electorate "
@@ -84,7 +94,9 @@ RULE = ("run i < table size is the i-th row of the complete table {8 voter behav
         "add_agent(name, weight) over the whole weight grid incl. 0 and with duplicate / empty names; "
         "enable_reliability_tracking on/off (flag drawn per run incl. table rows, attribute toggled between rounds) and "
         "observer callbacks present/absent; a labelled extra family with inf/NaN weights and confidences (outside the "
-        "statement's grid, judged by S1/S3/S5 only); each PERMIT outcome is re-run with every single "
+        "statement's grid, judged by S1/S3/S5 only); off-grid fractional thresholds (2/3, 5/9, 7/9, 1/7, 3/7, 0.66668, "
+        "0.55556), explicit 0 / 0.0 thresholds for every strategy, and a boundary family whose ballots sit exactly at (or "
+        "within 5e-5 below) the threshold with weights that keep the float arithmetic exact; each PERMIT outcome is re-run with every single "
         "block->permit / weight-up / confidence-up variant (max 12); non-trivial = a ballot with at least two different "
         "vote types or at least one faulted voter (raised, starved, garbled); distinct = distinct plan")
 COMPONENTS = {"real": ["operon_ai.topology.quorum.QuorumSensing", "operon_ai.topology.quorum.EmergencyQuorum",
@@ -103,7 +115,11 @@ ASSUMPTIONS = [
     "taken; for BAYESIAN it "
     "demands only that a ballot whose block votes dominate its permit votes pairwise in weight*confidence (and strictly "
     "in total) is not reached at thresholds >= 0.5",
-    "ties are judged only when the arithmetic on the ballot is exact in binary floating point",
+    "ties are judged only when the arithmetic on the ballot is exact in binary floating point; 'above the threshold' is "
+    "then decided in double precision against the caller's double (the correctly rounded share must exceed it), so an "
+    "exact 2:1 split is not above threshold=2/3",
+    "an explicit threshold of 0 / 0.0 is judged by the weakest reading: THRESHOLD needs at least one permit, ratio "
+    "strategies need a positive share (the code falls back to the default, which is stricter and also accepted)",
     "the weights of the criterion are the weights the caller gave (constructor default 1, add_agent(name, w), "
     "set_agent_weight on an unambiguous name), multiplied by the reliability the quorum reports; only where a "
     "name-addressed setter hit a duplicated name is the weight read back from get_statistics()",
@@ -128,7 +144,8 @@ EXPECT_PROBES = ("emergency_run", "bayesian_run", "tie_at_threshold", "s2_applie
                  "strategy_changed_before_vote", "weight_changed_before_vote", "vote_after_electorate_change",
                  "duplicate_agent_name", "empty_agent_name", "enrolled_with_zero_weight", "twins_vote_differently",
                  "threads_run", "overlapping_votes", "preempted_inside_run_vote", "reliability_tracking_off",
-                 "reliability_tracking_toggled", "tracking_off_with_uneven_weights", "nonfinite_run", "nonfinite_confidence")
+                 "reliability_tracking_toggled", "tracking_off_with_uneven_weights", "nonfinite_run", "nonfinite_confidence",
+                 "explicit_zero_threshold", "offgrid_threshold", "tie_at_offgrid_threshold", "boundary_run")
 
 VT = {"permit": VoteType.PERMIT, "block": VoteType.BLOCK, "abstain": VoteType.ABSTAIN, "defer": VoteType.DEFER}
 CLS = {"PERMIT": "permit", "EXECUTE": "permit", "BLOCK": "block", "DEFER": "defer"}
@@ -189,9 +206,11 @@ def gen(rng, tier, i):
         return {"config": cfg, "ops": [["vote", [[b, c] for b, c in zip(beh, confs)]]]}
 
     fam = weighted(rng, [(4, "large"), (3, "history"), (4.5, "electorate"), (1.3, "real"), (1, "garbled"), (1.6, "threads"),
-                         (0.8, "nonfinite")])
+                         (0.8, "nonfinite"), (1.6, "boundary")])
     if fam == "threads":
         return _gen_threads(rng, tier)
+    if fam == "boundary":
+        return _gen_boundary(rng)
     if fam == "large":
         n = rng.randint(5, 7)
     elif fam == "history":
@@ -204,7 +223,9 @@ def gen(rng, tier, i):
     if rng.random() < 0.25:      # bias to the weight/confidence-sensitive strategies
         cfg["strategy"] = rng.choice(["weighted", "confidence", "bayesian"])
         cfg["emergency"] = False
-        cfg["threshold"] = rng.choice([None] + FRACTIONS)
+        cfg["threshold"] = rng.choice([None] + FRACTIONS + OFFGRID + [0, 0.0])
+    elif rng.random() < 0.06:
+        cfg["threshold"] = rng.choice([0, 0.0])            # explicit zero, any strategy
     if fam == "electorate" and rng.random() < 0.35:   # criteria that depend on the colony size
         if rng.random() < 0.4:
             cfg.update({"strategy": "threshold", "emergency": True, "threshold": rng.choice([0.3, 0.5]), "min_voters": 1})
@@ -282,7 +303,12 @@ def gen(rng, tier, i):
                 out.append(["set_tracking", rng.random() < 0.4])
             elif o == "strategy":
                 c2 = rng.choice(_CFG[min(cur["n"], 7)])
-                out.append(["set_strategy", c2["strategy"], c2["threshold"]])
+                t2 = c2["threshold"]
+                if rng.random() < 0.15:
+                    t2 = rng.choice([0, 0.0])
+                elif c2["strategy"] not in ("threshold", "unanimous") and rng.random() < 0.2:
+                    t2 = rng.choice(OFFGRID)
+                out.append(["set_strategy", c2["strategy"], t2])
         return out
 
     if fam == "real":
@@ -318,6 +344,31 @@ def gen(rng, tier, i):
                 ops.append(["vote", ballot()])
         return {"config": cfg, "ops": ops}
     return {"config": cfg, "ops": [["vote", ballot()]]}
+
+
+def _gen_boundary(rng):
+    """Ballots whose permit share sits exactly at the threshold (or a hair below an off-grid one)."""
+    by_weight = rng.random() < 0.6
+    if by_weight:
+        thr, pw, bw = rng.choice(BOUNDARY_W)
+        strategy = rng.choice(["weighted", "weighted", "confidence"])
+        scale = rng.choice([1, 1, 0.5]) if max(pw + bw) <= 1 else 1
+        pw, bw = [w * scale for w in pw], [w * scale for w in bw]
+    else:
+        thr, np_, nb = rng.choice(BOUNDARY_C)
+        strategy = rng.choice(["majority", "supermajority"])
+        pw, bw = [rng.choice(WEIGHTS) for _ in range(np_)], [rng.choice(WEIGHTS) for _ in range(nb)]
+    members = [["PERMIT" if rng.random() < 0.8 else "EXECUTE", w] for w in pw] + [["BLOCK", w] for w in bw]
+    while len(members) < 7 and rng.random() < 0.3:       # bystanders that do not take part
+        members.append([rng.choice(["DEFER", "UNKNOWN", "raise", "starved"]), rng.choice(WEIGHTS)])
+    rng.shuffle(members)
+    n = len(members)
+    conf = (lambda: rng.choice([None, None, 1])) if by_weight else (lambda: rng.choice(CONFS))
+    cfg = {"strategy": strategy, "threshold": thr, "min_voters": rng.choice([0, 1, 1, 2]), "emergency": False, "n": n,
+           "family": "boundary", "weights": [m[1] for m in members], "via_set": rng.random() < 0.3,
+           "tracking": rng.random() < 0.7, "callbacks": False}
+    ops = [["vote", [[m[0], conf()] for m in members]]]
+    return {"config": cfg, "ops": ops}
 
 
 SCHEDS = [(1, {"kind": "serial"}), (3, {"kind": "uniform"}), (2, {"kind": "sticky", "p": 0.7}),
@@ -523,6 +574,8 @@ def tclass(cfg):
     t = cfg["threshold"]
     if t is None:
         return "default"
+    if t == 0:
+        return "zero"
     if cfg["strategy"] == "threshold":
         return "frac" if t < 1 else "count"
     return "one" if t >= 1 else "frac"
@@ -542,6 +595,12 @@ def is_permit(res):
 
 def any_permit(res):
     return bool(res.reached) or res.decision == VoteType.PERMIT
+
+
+def _thr(t, default):
+    """Fractional threshold in force for S6: None -> the strategy's default; an explicit 0 / 0.0 -> 0 (the weakest
+    reading: the code treats it as 'not given', another implementation may take it literally; S6 accepts both)."""
+    return default if t is None else t
 
 
 class _V:
@@ -632,19 +691,21 @@ def judge(k, cfg, cast, res, site, min_voters, unqualified_only=False):
         PC = [_V(v["w"] * v["r"], 1.0 if v["c"] is None else float(v["c"])) for v in permits]
         BC = [_V(v["w"] * v["r"], 1.0 if v["c"] is None else float(v["c"])) for v in blocks]
         if strategy in ("majority", "supermajority"):
-            thr = t if t else (0.5 if strategy == "majority" else 0.666)
+            thr = _thr(t, 0.5 if strategy == "majority" else 0.666)
             if len(P) + len(B) == 0:
                 bad = "no active votes"
             else:
                 q = Fraction(len(P), len(P) + len(B))
-                # at a threshold of 1.0 "above" cannot be met; full support is then the most S6 may ask (cf. S2)
-                if (q < 1) if thr >= 1 else (q <= Fraction(thr)):
+                # at a threshold of 1.0 "above" cannot be met; full support is then the most S6 may ask (cf. S2).
+                # Otherwise the share (a quotient of two small integers, correctly rounded to a double) must be
+                # above the caller's double: an exact tie at 2/3 against threshold=2/3 is not "above".
+                if (q < 1) if thr >= 1 else (float(q) <= thr):
                     bad = f"permit ratio {len(P)}/{len(P) + len(B)} is not above {thr}"
         elif strategy == "unanimous":
             if B or not P:
                 bad = f"{len(P)} permits, {len(B)} blocks"
         elif strategy in ("weighted", "confidence"):
-            thr = t if t else 0.5
+            thr = _thr(t, 0.5)
             if strategy == "confidence":
                 P2 = [v for v in PC if v.confidence >= 0.3]
                 B2 = [v for v in BC if v.confidence >= 0.3]
@@ -664,15 +725,18 @@ def judge(k, cfg, cast, res, site, min_voters, unqualified_only=False):
                 if thr >= 1:
                     if q < 1:
                         bad = f"weighted permit share {float(q):.6f} is not full support (threshold {thr})"
-                elif q < Fraction(thr) - Fraction(1, 10 ** 9) or (q == Fraction(thr) and exact):
+                elif q < Fraction(thr) - Fraction(1, 10 ** 9) or (exact and float(q) <= thr):
+                    # clearly below, or - when every product and sum is exact in binary floating point, so that any
+                    # evaluation order gives the correctly rounded share float(q) - not above the caller's double
                     bad = f"weighted permit share {float(q):.6f} is not above {thr}"
         elif strategy == "threshold":
             # n = colony size at vote time; a fractional count is a fraction of that colony (weakest reading: floor)
-            need = (n // 2 + 1) if not t else (math.floor(round(t * n, 9)) if t < 1 else int(t))
+            # an explicit count of 0 cannot mean "no permit needed" (S1); the weakest reading is one permit
+            need = (n // 2 + 1) if t is None else (1 if t == 0 else math.floor(round(t * n, 9)) if t < 1 else int(t))
             if len(P) < max(1, need):
                 bad = f"{len(P)} permits < {max(1, need)} (colony of {n})"
         elif strategy == "bayesian":
-            thr = t if t else 0.5
+            thr = _thr(t, 0.5)
             if thr >= 0.5 and len(BC) >= len(PC) and PC:
                 ps = sorted((Fraction(v.weight) * Fraction(v.confidence) for v in PC), reverse=True)
                 bs = sorted((Fraction(v.weight) * Fraction(v.confidence) for v in BC), reverse=True)
@@ -684,15 +748,19 @@ def judge(k, cfg, cast, res, site, min_voters, unqualified_only=False):
 
     # boundary probes
     if strategy in ("majority", "supermajority") and permits and blocks:
-        thr = t if t else (0.5 if strategy == "majority" else 0.666)
-        if Fraction(len(permits), len(permits) + len(blocks)) == Fraction(thr):
+        thr = _thr(t, 0.5 if strategy == "majority" else 0.666)
+        if float(Fraction(len(permits), len(permits) + len(blocks))) == thr:
             k.probe("tie_at_threshold")
+            if thr * 10000 != round(thr * 10000):
+                k.probe("tie_at_offgrid_threshold")
     if strategy in ("weighted", "confidence") and permits and blocks:
         def st(v):
             return Fraction(v["w"]) * Fraction(v["r"]) * Fraction(1 if v["c"] is None else v["c"])
         a, b = sum(st(v) for v in permits), sum(st(v) for v in blocks)
-        if a + b > 0 and a / (a + b) == Fraction(t if t else 0.5):
+        if a + b > 0 and float(a / (a + b)) == _thr(t, 0.5):
             k.probe("tie_at_threshold")
+            if _thr(t, 0.5) * 10000 != round(_thr(t, 0.5) * 10000):
+                k.probe("tie_at_offgrid_threshold")
     if len(permits) + len(blocks) < min_voters:
         k.probe("min_voters_gate_closed")
 
@@ -883,6 +951,13 @@ def run(plan, k):
             k.probe("bayesian_run")
         if tclass(cur) == "one":
             k.probe("threshold_one")
+        if tclass(cur) == "zero":
+            k.probe("explicit_zero_threshold")
+        tt = cur["threshold"]
+        if tt is not None and 0 < tt < 1 and tt * 10000 != round(tt * 10000):
+            k.probe("offgrid_threshold")
+        if cfg.get("family") == "boundary":
+            k.probe("boundary_run")
         if all(w == 0 for w, _ in obs) and obs:
             k.probe("zero_weight_electorate")
         if changed:
